@@ -6,9 +6,12 @@ import (
 	"flag"
 	"fmt"
 	"os"
+	"runtime/debug"
+	"syscall"
 	"time"
 
 	_ "github.com/scigolib/hdf5/verifsim/e1"
+	_ "github.com/scigolib/hdf5/verifsim/e2"
 	"github.com/scigolib/hdf5/verifsim/harness"
 	"github.com/scigolib/hdf5/verifsim/trace"
 )
@@ -26,10 +29,18 @@ func main() {
 	case "check":
 		os.Exit(cmdCheck(os.Args[2:]))
 	case "replay":
-		if len(os.Args) < 3 {
+		fs := flag.NewFlagSet("replay", flag.ExitOnError)
+		mem := fs.Int("mem", 0, "address-space limit in MiB")
+		_ = fs.Parse(os.Args[2:])
+		if fs.NArg() < 1 {
 			os.Exit(2)
 		}
-		os.Exit(harness.Replay(os.Args[2]))
+		if *mem > 0 {
+			lim := uint64(*mem) << 20
+			_ = syscall.Setrlimit(syscall.RLIMIT_AS, &syscall.Rlimit{Cur: lim, Max: lim})
+			debug.SetMaxStack(256 << 20)
+		}
+		os.Exit(harness.Replay(fs.Arg(0)))
 	case "mkknown":
 		os.Exit(cmdMkKnown(os.Args[2:]))
 	case "gen":
@@ -50,7 +61,15 @@ func cmdWorker(args []string) int {
 	known := fs.String("known", "[]", "known signature regexps (JSON)")
 	deadline := fs.Int("deadline", 0, "soft deadline seconds")
 	runs := fs.Int("runs", 0, "override total runs")
+	from := fs.Int("from", 0, "first absolute run index of this segment")
+	progress := fs.String("progress", "", "progress announcement file")
+	mem := fs.Int("mem", 0, "address-space limit in MiB (0 = none)")
 	_ = fs.Parse(args)
+	if *mem > 0 {
+		lim := uint64(*mem) << 20
+		_ = syscall.Setrlimit(syscall.RLIMIT_AS, &syscall.Rlimit{Cur: lim, Max: lim})
+		debug.SetMaxStack(256 << 20)
+	}
 	p := harness.Registry[*pid]
 	if p == nil {
 		fmt.Fprintln(os.Stderr, "unknown property", *pid)
@@ -60,10 +79,13 @@ func cmdWorker(args []string) int {
 	_ = json.Unmarshal([]byte(*known), &ks)
 	dir := harness.ScratchDir(*pid)
 	defer os.RemoveAll(dir)
+	emit := func(s *harness.Summary) {
+		b, _ := json.Marshal(s)
+		fmt.Println(string(b))
+	}
 	s := harness.RunWorker(p, harness.WorkerArgs{Tier: *tier, Seed: *seed, Worker: *w, Workers: *n, Known: ks, Dir: dir,
-		Deadline: time.Duration(*deadline) * time.Second, Runs: *runs})
-	b, _ := json.Marshal(s)
-	fmt.Println(string(b))
+		Deadline: time.Duration(*deadline) * time.Second, Runs: *runs, FromIdx: *from, Progress: *progress, Emit: emit})
+	emit(s)
 	return 0
 }
 
